@@ -293,19 +293,13 @@ func (p *pinner) doPinRecursive(ctx context.Context, c cid.Cid, fetch bool, name
 	p.lock.Lock()
 	defer p.lock.Unlock()
 
-	found, err := p.cidRIndex.HasAny(ctx, cidKey)
+	// Do not return immediately when the CID is already pinned recursively: the
+	// existing pins are replaced below, so that the pin is re-added with the new
+	// name. They are only removed once the graph has been fetched, otherwise a
+	// failed fetch would leave the CID unpinned.
+	alreadyPinned, err := p.cidRIndex.HasAny(ctx, cidKey)
 	if err != nil {
 		return err
-	}
-	// Do not return immediately! Just remove the recursive pins for the current CID.
-	// This allows the process to continue and the pin to be re-added with a new name.
-	//
-	// TODO: remove this to support multiple pins per CID
-	if found {
-		_, err = p.removePinsForCid(ctx, c, ipfspinner.Recursive)
-		if err != nil {
-			return err
-		}
 	}
 
 	dirtyBefore := p.dirty
@@ -332,18 +326,26 @@ func (p *pinner) doPinRecursive(ctx context.Context, c cid.Cid, fetch bool, name
 	}
 
 	// Only look again if something has changed.
-	if p.dirty != dirtyBefore {
+	if p.dirty != dirtyBefore || alreadyPinned {
 		found, err := p.cidRIndex.HasAny(ctx, cidKey)
 		if err != nil {
 			return err
 		}
 		if found {
-			return nil
+			if !alreadyPinned {
+				// pinned by someone else while the lock was released
+				return nil
+			}
+			// TODO: remove this to support multiple pins per CID
+			_, err = p.removePinsForCid(ctx, c, ipfspinner.Recursive)
+			if err != nil {
+				return err
+			}
 		}
 	}
 
 	// TODO: remove this to support multiple pins per CID
-	found, err = p.cidDIndex.HasAny(ctx, cidKey)
+	found, err := p.cidDIndex.HasAny(ctx, cidKey)
 	if err != nil {
 		return err
 	}
